@@ -63,7 +63,7 @@ pub fn check_ac(rep: &Report, cfg: &Cfg, pats: &[Vec<u8>], a: &dyn DynAut) {
         while let Some(s) = aq.pop_front() {
             for b in 0..=255u8 {
                 let t = a.next_state(true, s, b);
-                if a.is_start(t) {
+                if a.is_start(t) && !a.is_dead(t) {
                     fail(rep, "an anchored run never re-enters a start state", cfg, pats, format!("state {} byte {} -> start state {}", s, b, t));
                 }
                 if areach.insert(t) {
@@ -120,7 +120,7 @@ pub fn check_ac(rep: &Report, cfg: &Cfg, pats: &[Vec<u8>], a: &dyn DynAut) {
                 if dead && !a.is_dead(t) {
                     fail(rep, "the dead state is absorbing", cfg, pats, format!("dead {} byte {} -> {}", s, b, t));
                 }
-                if !anch && a.is_start(t) && Some(t) != ustart {
+                if !anch && a.is_start(t) && !a.is_dead(t) && Some(t) != ustart {
                     fail(rep, "an unanchored run re-enters only the unanchored start state", cfg, pats, format!("state {} byte {} -> {}", s, b, t));
                 }
                 if !depth.contains_key(&t) {
@@ -151,7 +151,7 @@ pub fn check_ac(rep: &Report, cfg: &Cfg, pats: &[Vec<u8>], a: &dyn DynAut) {
         let mut seen: HashSet<u32> = match_states.iter().cloned().collect();
         let mut q: VecDeque<u32> = match_states.iter().cloned().collect();
         while let Some(s) = q.pop_front() {
-            if a.is_start(s) {
+            if a.is_start(s) && !a.is_dead(s) {
                 fail(rep, "leftmost: after a match state the start state is never re-entered", cfg, pats, format!("state {}", s));
                 break;
             }
